@@ -165,7 +165,8 @@ func c27(c *Ctx) {
 		"encoding/json.Decoder.Decode(*, trailing) == io.EOF",
 		"env.Version == 1")
 	c.Guard("R3-command", dec, CallTo{"encoding/json.Decoder.Decode(*, env)"}, "after: encoding/json.Decoder.DisallowUnknownFields")
-	c.ConfineCalls("R3-command", "encoding/json.Unmarshal", 0, "pkg/controller/command.nonexistent*", "pkg/cluster/channels.*", "pkg/channel/replication.*", "pkg/cluster/propose.*")
+	// the command package decodes only through the strict decoder above (no lenient json.Unmarshal beside it)
+	c.NoCalls("R3-command", "encoding/json.Unmarshal", "pkg/controller/command.*")
 	hdr := c.Fn("pkg/cluster/net.CheckHeader")
 	c.Guard("R3-header", hdr, RetNil{}, "len(data) >= 2", "data[0] == wantVersion", "data[1] == wantKind")
 }
